@@ -74,3 +74,15 @@ PLANS["C12"] = {
                     "'the task that most recently polled before completion is woken' is read as: the waker registered in the slot when completion runs is woken, and no poll returns Pending after that (an earlier task that shares the handle with a later one is not promised a wake-up by the single slot)"],
     "rule": "a case is one schedule of done() against the polls of 1-3 tasks; TLC-exported schedules are ALL schedules of the instance (or a seeded sample of them), random ones are seeded",
 }
+
+# ---- C14: the frequency sketch at byte level (Sketch.tla)
+PLANS["C14"] = {
+    "mc": {"quick": [{"module": "MC_Sketch", "cfg": "MC_Sketch_quick", "constants": "ByteLemma over all 256 bytes x 2 nibbles (ASSUME); sizing for counters 1..70 (ASSUME); streams of <= 42 accesses of 2 keys, counters 20, positions {0,31}"}],
+           "thorough": [{"module": "MC_Sketch", "cfg": "MC_Sketch", "timeout": 1500, "constants": "as quick with positions {0,1,31} and streams <= 44"}]},
+    "direct": {"quick": [{"name": "sketch", "cmd": "sketchrun --seed {seed} --runs 60 --rows 800", "trace_spec": "TraceSketch"}],
+               "thorough": [{"name": "sketch", "cmd": "sketchrun --seed {seed} --runs 1500 --rows 20000", "trace_spec": "TraceSketch"}]},
+    "trace_spec": "TraceSketch",
+    "assumptions": ["TLC; the guarded wrappers (verif::row_*, LfuProbe) call the crate-private code unchanged",
+                    "64-bit hashing is outside the model: the four positions of a key are logged by the implementation; the doorkeeper's answers are logged (a bloom filter may give false positives)"],
+    "rule": "a case is one transition of the real code: one (byte, nibble) of the exhaustive byte tour, one random multi-byte row, one sizing, or one recorded access of a random stream into the real TinyLFU",
+}
